@@ -56,11 +56,12 @@ def seqObs (s : Seq) (qf qi : List Int) : Obs :=
     ("ext", hex s.ext), ("zfill", toString s.zfill), ("hasfs", showBool s.frameSet.isSome),
     ("style", showStyle s.style),
     ("len", toString ln), ("start", toString s.start), ("fin", toString s.fin),
-    ("str", hex s.str), ("fmt", hex s.str), ("i0", hex (s.index 0)),
+    ("str", hex s.str), ("fmt", hex s.str), ("i0", hex (s.index 0)), ("i0b", hex (s.index 0)),
     ("fr", hexList (qf.map s.frameInt)),
     ("ix", hexList (qi.map s.index)),
     ("nodup", nodup),
-    ("fs", hexList (["5", "-5", "#", "abc", "007", "+3"].map fun t => s.frameStr t.toList)) ]
+    ("fs", hexList (["5", "-5", "#", "abc", "007", "+3"].map fun t => s.frameStr t.toList)),
+    ("str2", hex s.str), ("fmt2", hex s.str) ]
 
 /-- what C04 demands of the paths, given the components -/
 def seqPathSpec (s : Seq) (qf qi : List Int) : Obs :=
@@ -164,14 +165,15 @@ def dispatchSeq : List String → Option (Obs × Option Obs)
           if Spec.unambig d b r p e ∧ txt = d ++ b ++ r ++ p ++ e then
             [ ("err", "ok"), ("dir", hex d), ("base", hex b), ("rng", hex r), ("pad", hex p), ("ext", hex e),
               ("zfill", toString (((Spec.classifyPad p).map (·.width st)).getD 0)),
-              ("hasfs", showBool (!r.isEmpty)), ("str", hex txt), ("fmt", hex txt) ]
+              ("hasfs", showBool (!r.isEmpty)), ("str", hex txt), ("fmt", hex txt),
+              ("str2", hex txt), ("fmt2", hex txt) ]
           else []
         | ["single"] =>
           -- a concrete file path (no pad token, no newline): index 0 gives it back
           if txt.all (fun c => c != '#' && c != '@' && c != '%' && c != '$' && c != '<' && c != '\n')
           then [("err", "ok"), ("i0", hex txt)] else []
         | _ => []
-      some (m, some (comp ++ seqPathSpec s qf qi))
+      some (m, some (comp ++ seqPathSpec s qf qi ++ [("i0b", hex (s.index 0))]))
   | _ => none
 
 end Gfs.Ops
